@@ -1128,6 +1128,9 @@ class Builder:
         self.note('#FORMAT')
         case = case % 3
         c2 = cx.deeper(nobrace=True, esc=cx.esc + 1)      # nested macros: their fields must survive this #FORMAT
+        if case == 2 and cx.noquote:
+            # finding C17-quote: in HTML mode a ' in a loop body has become &#x27;, upper-cased to &#X27; = macro #X
+            c2 = c2.but(plain=True)
         # the fields of the text are replaced first (by the formatting operation itself), the
         # macros that the text contains are expanded afterwards
         texts, vals = [None] * len(parts), [None] * len(parts)
